@@ -364,6 +364,16 @@ func genExtracted(b *strings.Builder, root, authp, httpio *pkg) {
 	w("Definition guard_val_len : bool := %s.", coqBool(indexGuarded(root, "handleChanMessage", "params")))
 	w("Definition guard_close_len : bool := %s.", coqBool(indexGuarded(root, "handleChanClose", "params")))
 	w("")
+	w("(* connection loop facts *)")
+	w("(* tryReconnect marks the connection unusable (assigns c.incomingErr) before it calls closeInFlight *)")
+	w("Definition tryReconnect_marks_before_cif : bool := %s.", coqBool(assignBeforeCall(root, "tryReconnect", "c.incomingErr", "c.closeInFlight")))
+	w("(* handleResponse deletes the in-flight entry only inside an `if` that compares the entry's ready channel *)")
+	w("Definition handleResponse_delete_guarded : bool := %s.", coqBool(deleteGuardedByReady(root)))
+	w("(* the caller's retry condition in handleRpcCall *)")
+	w("Definition retry_condition : string := %s.", coqStr(retryCondition(root)))
+	w("(* bodies of the closers returned by the three client constructors *)")
+	w("Definition closer_bodies : list (string * string) := [%s].", closerBodies(root))
+	w("")
 	w("(* package auth *)")
 	sh := authp.funcDecl("Handler", "ServeHTTP")
 	if sh == nil {
@@ -522,4 +532,130 @@ func normalizedBeforeIndex(p *pkg, fn, mapField string) bool {
 		return true
 	})
 	return okAll && found
+}
+
+func (p *pkg) anyFunc(name string) *ast.FuncDecl {
+	for _, fn := range p.sortedFiles() {
+		for _, d := range p.files[fn].Decls {
+			if fd, ok := d.(*ast.FuncDecl); ok && fd.Name.Name == name {
+				return fd
+			}
+		}
+	}
+	return nil
+}
+
+// first assignment to lhs occurs (source order) before the first call of callee, both inside fn (not inside func literals)
+func assignBeforeCall(p *pkg, fn, lhs, callee string) bool {
+	fd := p.anyFunc(fn)
+	if fd == nil {
+		die("%s not found", fn)
+	}
+	var apos, cpos token.Pos
+	var walk func(n ast.Node) bool
+	walk = func(n ast.Node) bool {
+		switch v := n.(type) {
+		case *ast.FuncLit:
+			return false
+		case *ast.AssignStmt:
+			for _, l := range v.Lhs {
+				if exprString(l) == lhs && apos == 0 {
+					apos = v.Pos()
+				}
+			}
+		case *ast.CallExpr:
+			if exprString(v.Fun) == callee && cpos == 0 {
+				cpos = v.Pos()
+			}
+		}
+		return true
+	}
+	ast.Inspect(fd.Body, walk)
+	return apos != 0 && cpos != 0 && apos < cpos
+}
+
+func deleteGuardedByReady(p *pkg) bool {
+	fd := p.funcDecl("wsConn", "handleResponse")
+	if fd == nil {
+		die("handleResponse not found")
+	}
+	total, guarded := 0, 0
+	var walk func(n ast.Node, g bool)
+	walk = func(n ast.Node, g bool) {
+		ast.Inspect(n, func(m ast.Node) bool {
+			switch v := m.(type) {
+			case *ast.IfStmt:
+				cg := g || strings.Contains(exprString2(v.Cond), ".ready")
+				walk(v.Body, cg)
+				if v.Else != nil {
+					walk(v.Else, g)
+				}
+				return false
+			case *ast.CallExpr:
+				if exprString(v.Fun) == "delete" && len(v.Args) == 2 && strings.HasSuffix(exprString(v.Args[0]), ".inflight") {
+					total++
+					if g {
+						guarded++
+					}
+				}
+			}
+			return true
+		})
+	}
+	walk(fd.Body, false)
+	return total == 1 && guarded == 1
+}
+
+func retryCondition(p *pkg) string {
+	fd := p.funcDecl("rpcFunc", "handleRpcCall")
+	if fd == nil {
+		die("handleRpcCall not found")
+	}
+	out := ""
+	ast.Inspect(fd.Body, func(n ast.Node) bool {
+		as, ok := n.(*ast.AssignStmt)
+		if ok && len(as.Lhs) == 1 && exprString(as.Lhs[0]) == "retry" && as.Tok == token.DEFINE {
+			out = exprString2(as.Rhs[0])
+		}
+		return true
+	})
+	if out == "" {
+		die("retry condition not found in handleRpcCall")
+	}
+	return out
+}
+
+func closerBodies(p *pkg) string {
+	var items []string
+	for _, fn := range []string{"NewCustomClient", "httpClient", "websocketClient"} {
+		fd := p.anyFunc(fn)
+		if fd == nil {
+			die("%s not found", fn)
+		}
+		// last `return func() { ... }, nil`
+		body := ""
+		ast.Inspect(fd.Body, func(n ast.Node) bool {
+			rs, ok := n.(*ast.ReturnStmt)
+			if !ok || len(rs.Results) != 2 {
+				return true
+			}
+			fl, ok := rs.Results[0].(*ast.FuncLit)
+			if !ok {
+				return true
+			}
+			var parts []string
+			for _, st := range fl.Body.List {
+				switch v := st.(type) {
+				case *ast.ExprStmt:
+					parts = append(parts, exprString2(v.X))
+				default:
+					parts = append(parts, fmt.Sprintf("<%T>", st))
+				}
+			}
+			body = strings.Join(parts, "; ")
+			return true
+		})
+		items = append(items, fmt.Sprintf("(%s, %s)", coqStr(fn), coqStr(body)))
+	}
+	return strings.Join(items, "; ")
 }
